@@ -11,6 +11,7 @@ import (
 	"encoding/json"
 	"fmt"
 	"regexp"
+	"strings"
 	"sync/atomic"
 
 	"verifh/clih"
@@ -169,6 +170,9 @@ func serverCorpus(thorough bool) []item {
 	for _, n := range []int{4095, 4096, 4097} {
 		add(fmt.Sprintf("cl%d+get", n), S("POST", wire.FCL, n), S("GET", wire.FNone, 0))
 	}
+	// a body longer than the 8 KiB a streaming server prefetches, which the handler does not read: the skip of the rest
+	// has to wait for it in whatever pieces it arrives
+	raw("noread-cl9000+get", "POST /noread/big HTTP/1.1\r\nHost: h\r\nContent-Length: 9000\r\n\r\n"+strings.Repeat("GET /evil HTTP/1.1\r\nHost: e\r\n\r\n", 290)+"0123456789"+"GET /after HTTP/1.1\r\nHost: h\r\nX-Id: after\r\n\r\n")
 	add("ch4097+get", with(S("POST", wire.FChunked, 4097), func(s *wire.Spec) { s.Part = wire.PSplit4096 }), S("GET", wire.FNone, 0))
 	add("many+cl", with(S("POST", wire.FCL, 3), func(s *wire.Spec) { s.Extra = wire.XMany }))
 	add("get+many", S("GET", wire.FNone, 0), with(S("GET", wire.FNone, 0), func(s *wire.Spec) { s.Extra = wire.XMany }))
